@@ -680,7 +680,9 @@ def gen_tasks(tier, seed):
         # optimised expression lists whose intermediate symbols are defined through other intermediates
         [("mulq", "def mulq(a: Qint[3], b: Qint[2]) -> bool:\n    return a * b == 6"),
          ("subq", "def subq(a: Qint[4], b: Qint[4]) -> Qint[4]:\n    return a - b")],
-        [("mad", "def mad(a: Qint[2], b: Qint[2]) -> bool:\n    return a * b + a == 6")],
+        [("mad", "def mad(a: Qint[2], b: Qint[2]) -> bool:\n    return a * b + a == 6"),
+         ("mchain", "def mchain(a: Qint[2], b: Qint[2]) -> bool:\n    return a * b * a == 2"),
+         ("mul3", "def mul3(a: Qint[3], b: Qint[3]) -> bool:\n    return a * b == 6")],
         # a local variable whose name starts with _ret is an intermediate, not a return bit
         [("rv", "def rv(a: bool, b: bool) -> bool:\n    _retval = a or b\n    return not _retval"),
          ("rw", "def rw(a: bool, b: bool, c: bool) -> bool:\n    _retx = a and b\n    _ret0 = _retx ^ c\n    return _ret0 or _retx")],
